@@ -659,6 +659,7 @@ func (w *world) strace(req straceReq) ([][]string, []byte, error) {
 	pending := map[string]string{} // pid -> "call(args" of an unfinished call
 	fds := map[string]bool{}       // fds open on a file in the scratch directory
 	var toks []string
+	nTrash := 0
 	for _, l := range strings.Split(string(raw), "\n") {
 		var pid, call, rest string
 		if m := reResumed.FindStringSubmatch(l); m != nil {
@@ -742,7 +743,15 @@ func (w *world) strace(req straceReq) ([][]string, []byte, error) {
 					toks = append(toks, fmt.Sprintf("r:%s:%s", a, b))
 				}
 			}
-		case "ftruncate", "truncate", "unlink", "unlinkat", "sync_file_range":
+		case "unlink", "unlinkat":
+			// removing a directory entry = renaming it to a name nobody reads (the crash model has no other use for it)
+			if len(strs) > 0 && ret == 0 {
+				if n := name(strs[len(strs)-1][1]); n != "" {
+					nTrash++
+					toks = append(toks, fmt.Sprintf("r:%s:U%d", n, nTrash))
+				}
+			}
+		case "ftruncate", "truncate", "sync_file_range":
 			if (len(strs) > 0 && name(strs[0][1]) != "") || fds[fdArg] {
 				toks = append(toks, "?"+call)
 			}
